@@ -259,29 +259,34 @@ def boundOf (O : Oracles) (row : TypeRow) : Option Str → Option (Option PyVal)
       | .ok v => some (some v)
       | .error _ => Option.none
 
-/-- `vol.All(type, [require_tzinfo], [In(allowed)], [Range(min, max)])`;
-    `none` = outside the model (a declared bound/allowed value that the factory cannot coerce,
-    or a range on a non-numeric type) -/
+/-- `vol.In(allowed)`; `none` = a declared allowed value the factory cannot coerce -/
+def allowedOk (O : Oracles) (d : VarDecl) (v : PyVal) : Option Bool :=
+  match d.allowed with
+  | Option.none => some true
+  | some [] => some true
+  | some l => (coerceAll O d.row l).map fun vs => vs.any (pyEq v)
+
+/-- `vol.Range(min, max)`; `none` = a bound the factory cannot coerce, or a range on a
+    non-numeric value (outside the model) -/
+def rangeOk (O : Oracles) (d : VarDecl) (v : PyVal) : Option Bool :=
+  if !d.hasRange then some true
+  else match boundOf O d.row d.min, boundOf O d.row d.max with
+    | some lo, some hi =>
+      if (lo.isSome || hi.isSome) && v.num?.isNone then Option.none
+      else some ((match lo with | some m => leVal m v | Option.none => true)
+                 && (match hi with | some m => leVal v m | Option.none => true))
+    | _, _ => Option.none
+
+/-- `vol.All(type, [require_tzinfo], [In(allowed)], [Range(min, max)])`, evaluated in order;
+    `none` = outside the model -/
 def schemaOk (O : Oracles) (strict : Bool) (d : VarDecl) (v : PyVal) : Option Bool :=
   if !isInstance v d.row.ty then some false
   else if d.row.needTz && !awareOf v then some false
   else if !strict then some true
   else
-    let inRes : Option Bool :=
-      match d.allowed with
-      | Option.none => some true
-      | some [] => some true
-      | some l => (coerceAll O d.row l).map fun vs => vs.any (pyEq v)
-    match inRes with
+    match allowedOk O d v with
     | Option.none => Option.none
     | some false => some false
-    | some true =>
-      if !d.hasRange then some true
-      else match boundOf O d.row d.min, boundOf O d.row d.max with
-        | some lo, some hi =>
-          if (lo.isSome || hi.isSome) && v.num?.isNone then Option.none
-          else some ((match lo with | some m => leVal m v | Option.none => true)
-                     && (match hi with | some m => leVal v m | Option.none => true))
-        | _, _ => Option.none
+    | some true => rangeOk O d v
 
 end Upnp.C06
